@@ -208,10 +208,23 @@ def run_history(case, rec, mode):
         elif kind in ('ctor_mps', 'ctor_mpo'):
             # the public constructors with a scalar fill value or random entries (they mask the entries by the charges)
             dsc = step[1]
-            fill = [1.0, 2, 0.5 - 1j, 'random', 0.0, -3][step[2] % 6]
-            kw = dict(fill=fill)
-            if fill == 'random':
-                kw['rng'] = np.random.default_rng(dsc['seed'])
+            fill = [1.0, 2, 0.5 - 1j, 'random', 0.0, -3, 'default', 'random_default_rng'][step[2] % 8]
+            if fill == 'default':
+                kw = {}                                   # documented default fill = 0.0
+            elif fill == 'random_default_rng':
+                kw = dict(fill='random')                  # documented default rng = None (a fresh generator)
+            else:
+                kw = dict(fill=fill)
+                if fill == 'random':
+                    kw['rng'] = np.random.default_rng(dsc['seed'])
+            if fill == 'random_default_rng':
+                # entries from an unseeded generator: only the value-independent structure is judged and the object does not enter the
+                # pool, so that everything that follows stays a pure function of the case descriptor
+                if kind == 'ctor_mps':
+                    check_mps(ptn.MPS(dsc['qd'], dsc['qD'], **kw), 'after ctor_mps (default rng)')
+                else:
+                    check_mpo(ptn.MPO(dsc['qd'], dsc['qD'], **kw), 'after ctor_mpo (default rng)')
+                continue
             if kind == 'ctor_mps':
                 result = ptn.MPS(dsc['qd'], dsc['qD'], **kw)
                 w.add_mps(result)
